@@ -15,3 +15,23 @@ Definition must_fail (cs : list check) : bool := existsb (fun c => negb (passed 
 Definition log_well_formed (cs : list check) (log : list line) : Prop :=
   exists order, Permutation order (seq 0 (length cs)) /\
                 log = flat_map (fun i => block (nth i cs (mkCheck [] true))) order.
+
+(* ---- what one check is made of, and what its verdict must be (second part of the property) ----
+   A .check file declares requirements, commands and tests (comparisons of result files with reference files).
+   Written independently of the code: the verdict of a check whose requirements are met is "every command succeeded
+   and every test succeeded" (when `discard` is set -- the documented default of tfel-check, switched off by
+   --discard-commands-failure=false -- the commands only count when the check has no test); a check with an unmet requirement is skipped and counts as a success; nothing of it is run. *)
+Record cdef := mkDef { req_ok : bool; discard : bool; cmd_ok : list bool; test_ok : list bool }.
+Definition all_true (l : list bool) : bool := forallb (fun b => b) l.
+Definition no_tests (d : cdef) : bool := match test_ok d with [] => true | _ => false end.
+Definition check_verdict (d : cdef) : bool :=
+  if req_ok d then (if discard d && negb (no_tests d) then true else all_true (cmd_ok d)) && all_true (test_ok d)
+  else true.
+(* what a run records for one check: verdict, result of every command, result of every test, number of skipped steps *)
+Record result := mkRes { r_verdict : bool; r_cmds : list bool; r_tests : list bool; r_skipped : nat }.
+Definition check_result (d : cdef) : result :=
+  if req_ok d then mkRes (check_verdict d) (cmd_ok d) (test_ok d) 0 else mkRes true [] [] (length (cmd_ok d)).
+(* the results recorded by the sequential run (-j 1): check 0, then check 1, ... *)
+Definition sequential_results (ds : list cdef) : list (nat * result) :=
+  map (fun i => (i, check_result (nth i ds (mkDef true false [] [])))) (seq 0 (length ds)).
+Definition must_fail_defs (ds : list cdef) : bool := existsb (fun d => negb (check_verdict d)) ds.
